@@ -11,7 +11,10 @@ with an error.  Every file of the offline benchmark corpus must still be accepte
 Dedicated streams (run first, small): simultaneous lets that rebind names with an outer meaning (`build_simlet_script`,
 `LET_WITNESSES`), the 3-4 argument forms of the chainable / associative / pairwise operators with the standard's expansion as
 meaning (`build_nary_script`: accepted => same meaning, else rejected), one undeclared name in every position of every
-term-carrying command, bare or under `!` annotations, with its declared-name control (`undeclared_case`).
+term-carrying command, bare or under `!` annotations, with its declared-name control (`undeclared_case`); command SEQUENCES
+read by one parser object through `get_command_generator` (`run_command_sequences`): declarations, a command rejected while a
+binder of a name is open after sibling binders of the same name were closed (let / quantifier / define-fun parameter mixes,
+nesting), then valid probes mentioning the name -- read as the text says and as a fresh parser reads them.
 
 K: the implementation's `get_script` result (wire encoding of every command argument) against
 the Lean model `Impl.Parser` (driver request `pread <hex text>`), literal comparison after
@@ -44,7 +47,9 @@ RULE = ("independently generated SMT-LIB scripts (nested/parallel/shadowing let,
         "when the script contains at least one term-carrying command (assert/define-fun/get-value/check-sat-assuming) "
         "that is not a bare literal; distinct = distinct script texts.  Malformed stream: one seeded defect per script; "
         "undeclared-name stream: one undeclared name (bare or under ! annotations) in a String/Int/Bool/Real/BV/Array "
-        "position of every term-carrying command, with the declared-name control.")
+        "position of every term-carrying command, with the declared-name control.  Command-sequence stream: one parser object "
+        "reads declarations, one rejected command (sibling binders of one name closed, then one open at the failure), then "
+        "valid probes.")
 ASSUMPTIONS = [
     "arrays: finitely supported interpretations only; reals are rationals",
     "interpretations under which a division by zero is evaluated are skipped",
@@ -2565,6 +2570,287 @@ def run_let_witnesses(ctx, ig, lines, meta):
                      dict(rep, command=what, intended=semantic.readable(want), returned=semantic.readable(got))))
 
 
+# ------------------------------------------------------------------------------------------
+# command sequences read by ONE parser object (get_command_generator keeps the declarations between calls): a command that is
+# rejected leaves nothing behind -- the commands that follow are read as a fresh parser reads them after the declarations alone
+class _Cmds(object):
+    def __init__(self, commands):
+        self.commands = commands
+
+
+def _feed(parser, text):
+    """-> ("ok", [commands]) | ("err", class, msg)"""
+    try:
+        with warnings.catch_warnings():
+            warnings.simplefilter("ignore")
+            return ("ok", list(parser.get_command_generator(io.StringIO(text))))
+    except RecursionError:
+        raise
+    except Exception as e:
+        return ("err", type(e).__name__, str(e)[:200])
+
+
+def failing_command(rng, g, names, undeclared):
+    """a command that is rejected while binders of the names are open, after sibling binders of the SAME names were closed:
+    -> (shape tag, s-expression)"""
+    r = rng
+    kinds = []
+
+    def value(ty):
+        if ty == "Int":
+            return r.choice(["1", "2", "20", ["+", "c!", "1"], ["-", "7"]])
+        return r.choice(["true", "false", ["not", "b!"]])
+
+    def atom(n, ty):
+        if ty == "Int":
+            return r.choice([[">", n, "0"], ["=", ["+", n, "1"], "c!"], ["<", "c!", n]])
+        return r.choice([["or", n, "b!"], ["not", n], ["=>", "b!", n]])
+
+    def bind(n, inner):
+        """inner: function type -> term (Bool)"""
+        k = r.choice(["L", "L", "Q", "L2"])
+        ty = r.choice(["Int", "Int", "Bool"])
+        kinds.append(k[0])
+        if k == "L":
+            return ["let", [[n, value(ty)]], inner(ty)]
+        if k == "L2":
+            other = r.choice([x for x in names if x != n] or ["w!"])
+            return ["let", [[other, value("Int")], [n, value(ty)]], inner(ty)]
+        return [r.choice(["forall", "exists"]), [[n, ty]], inner(ty)]
+
+    def closed(n, depth):
+        def inner(ty):
+            if depth > 0 and r.random() < 0.3:
+                return ["and", atom(n, ty), closed(n, depth - 1)]
+            return atom(n, ty)
+        return bind(n, inner)
+
+    fail_kind = r.choice(["undeclared", "undeclared", "undeclared", "ill-sorted", "arity", "unknown-operator", "unclosed"])
+
+    def failure(n, ty):
+        if fail_kind == "undeclared":
+            return [">", n, undeclared] if ty == "Int" else ["or", n, undeclared]
+        if fail_kind == "ill-sorted":
+            return ["+", n, "true"] if ty == "Int" else ["<", n, "1"]
+        if fail_kind == "arity":
+            return ["not", atom(n, ty), atom(n, ty)]
+        if fail_kind == "unknown-operator":
+            return ["frobnicate!", n]
+        return ["and", atom(n, ty), "<UNCLOSED>"]
+
+    def failing(n, depth):
+        def inner(ty):
+            if depth > 0 and r.random() < 0.6:
+                return siblings(depth - 1)
+            return failure(n, ty)
+        return bind(n, inner)
+
+    def siblings(depth):
+        n = r.choice(names)
+        before = [closed(r.choice(names) if r.random() < 0.25 else n, 1) for _ in range(r.choice([1, 1, 2]))]
+        if r.random() < 0.15:
+            before.append(atom(n, "Int") if g_is_int(n) else "b!")
+        after = [closed(n, 0)] if r.random() < 0.3 else []
+        kinds.append("(")
+        t = [r.choice(["and", "and", "or"])] + before + [failing(n, depth)] + after
+        kinds.append(")")
+        return t
+
+    def g_is_int(n):
+        e = g.scope.get(n)
+        return e is not None and e.ty == I
+    shape = r.choice(["siblings", "siblings", "siblings", "nested-siblings", "single", "all-closed"])
+    if shape == "siblings":
+        body = siblings(r.choice([0, 0, 1]))
+    elif shape == "nested-siblings":
+        n = r.choice(names)
+        body = bind(n, lambda ty: siblings(r.choice([0, 1])))
+    elif shape == "single":
+        body = failing(r.choice(names), 0)
+    else:
+        n = r.choice(names)
+        body = ["and", closed(n, 1), closed(n, 0), failure(n, "Int") if g_is_int(n) else [">", "c!", undeclared]]
+    k = r.random()
+    if k < 0.45:
+        cmd, wtag = ["assert", body], "assert"
+    elif k < 0.70:
+        pn = r.choice(names)
+        cmd, wtag = ["define-fun", "ff!", [[pn, r.choice(["Int", "Bool"])], ["k!", "Int"]], "Bool", body], "define-fun"
+    elif k < 0.80:
+        cmd, wtag = ["get-value", ["c!", body]], "get-value"
+    elif k < 0.88:
+        cmd, wtag = ["assert-soft", body, ":weight", "2"], "assert-soft"
+    elif k < 0.94:
+        cmd, wtag = ["check-sat-assuming", [body]], "check-sat-assuming"
+    else:
+        cmd, wtag = ["define-fun", "ff!", [], "Int", ["ite", body, "1", "0"]], "define-fun-0"
+    return "%s/%s/%s/%s" % (wtag, shape, fail_kind, "".join(kinds)), cmd
+
+
+SEQ_DECLS = "(declare-fun x () Int)(declare-fun y () Int)(declare-fun p () Bool)"
+SEQ_WITNESSES = [
+    # (failing command: sibling binders of one name, the last one open when the command is rejected; probe)
+    ("(assert (and (let ((x 1)) (> x 0)) (let ((x 2)) (> x undeclared))))", "(assert (> x y))"),
+    ("(define-fun f ((k Int)) Int (+ (let ((x 10)) x) (let ((x 20)) (+ x nope))))", "(assert (= (+ x 1) y))"),
+    ("(assert (or (let ((x 1)) (> x 0)) (let ((x 2)) (> x 0)) (let ((x 3)) (> x nope))))", "(assert (> (+ x x) y))"),
+    ("(assert (and (forall ((x Bool)) (or x p)) (exists ((x Bool)) (and x undeclared))))", "(assert (> x y))"),
+    ("(define-fun f ((x Bool)) Bool (and (let ((x true)) x) (let ((x false)) (or x nope))))", "(assert (< x y))"),
+    ("(assert (let ((x 5)) (and (let ((x 1)) (> x 0)) (exists ((x Int)) (> x 0)) (let ((x 2) (y 3)) (> x (+ y true))))))",
+     "(assert (> (- x y) 0))"),
+    ("(get-value ((let ((p false)) p) (let ((p (> x 0))) (and p nope))))", "(assert (=> p (> x y)))"),
+    ("(assert (and (let ((x 1)) (> x 0)) (let ((x 2)) (> x 0", "(assert (> x y))"),
+]
+
+
+def run_sequence_witnesses(ctx, ig, lines, meta):
+    for bad, probe in SEQ_WITNESSES:
+        session, fresh = SmtLibParser(Environment()), SmtLibParser(Environment())
+        rep = {"declarations": SEQ_DECLS, "failing": bad, "probes": [probe], "stream": "command-sequence",
+               "text": SEQ_DECLS + bad + probe}
+        ctx.case("sequence-witness:" + bad)
+        if _feed(session, SEQ_DECLS)[0] != "ok" or _feed(fresh, SEQ_DECLS)[0] != "ok":
+            continue
+        if _feed(session, bad)[0] == "ok":
+            ctx.report_s({"oracle": "reject", "kind": "sequence-failing-command", "detail": "witness"},
+                         "malformed command accepted: %s" % bad, rep)
+            continue
+        a, b = _feed(session, probe), _feed(fresh, probe)
+        sig0 = {"stream": "command-sequence", "after": bad.split()[0].strip("("), "shape": "witness"}
+        if b[0] == "err":
+            continue
+        if a[0] == "err":
+            ctx.report_s(dict(sig0, oracle="accept", kind="after-failed-command", error=a[1]),
+                         "one parser object: after the rejected command %s the valid command %s is rejected (%s %s)"
+                         % (bad, probe, a[1], a[2]), dict(rep, probe=probe))
+            continue
+        want, got = b[1][0].args[0], a[1][0].args[0]
+        lines.append(semantic.chk_equiv_line(want, got, ig.sample([want, got], n=8), check_fv=True))
+        meta.append((dict(sig0, oracle="meaning", command="assert"),
+                     dict(rep, command="assert#0", intended=semantic.readable(want), returned=semantic.readable(got))))
+
+
+def run_command_sequences(ctx, ig, lines, meta, n, forced=False):
+    quick = ctx.tier == "quick"
+    run_sequence_witnesses(ctx, ig, lines, meta)
+    for i in range(n):
+        if not forced and ctx.time_left() < (45 if quick else 300):
+            break
+        r = ctx.rng
+        g = ScriptGen(r, "strict")
+        g.configure(r.choice([("int",), ("int",), ("int", "real"), ("int", "bv")]), True)
+        if g.logic in ("QF_NIA",):
+            g.logic = "QF_LIA"
+        g.prelude()
+        for t in [I, I, B] + [r.choice([I, B, r.choice(g.value_types())]) for _ in range(r.randint(0, 2))]:
+            g.declare_const(t)
+        for nm, t in (("c!", I), ("b!", B)):
+            g.scope[nm] = Entry("sym", t, g.msym(nm, t))
+            g.cmds.append((["declare-fun", nm, [], g.sort_sx(t)], ("declare", nm, t, [])))
+        ndecl = len(g.cmds)
+        declared = [x for x, e in g.scope.items() if e.kind == "sym" and x not in ("c!", "b!") and e.ty in (I, B)]
+        names = r.sample(declared, min(len(declared), r.choice([1, 1, 2])))
+        ghost = "e!"                                  # a name without declaration, bound by the failing command as well
+        if r.random() < 0.3:
+            names.append(ghost)
+        shape, bad = failing_command(r, g, [symtok_plain(x) for x in names], "undeclared!")
+        bad_text = render(r, bad, False).replace("<UNCLOSED>", "(and b! b!")
+        # probes: valid commands that mention the names, with the generator's own meaning
+        try:
+            for _ in range(r.choice([2, 3])):
+                nm = r.choice([x for x in names if x != ghost] or declared)
+                k = r.random()
+                if k < 0.6:
+                    sx, d, ty = g.around(nm, 2, g.scope)
+                    if ty != B:
+                        sx, d = g.ap("<" if is_num(ty) else "eq", (sx, d), g.gen(ty, 1, g.scope))
+                    g.cmds.append((["assert", sx], ("assert", d)))
+                elif k < 0.8:
+                    g.define_fun(body_fn=lambda t, sc, nm=nm: _coerce(g, g.around(nm, 2, sc), t, sc))
+                else:
+                    sx, d, ty = g.around(nm, 1, g.scope)
+                    g.cmds.append((["get-value", [sx]], ("terms", "get-value", [d])))
+        except Rejectable:
+            continue
+        if g.may_reject:
+            continue
+        decl_text = render_script(r, [c[0] for c in g.cmds[:ndecl]], fancy=False)
+        probes = [render(r, c[0], False) for c in g.cmds[ndecl:]]
+        ghost_probe = "(assert (> e! c!))" if ghost in names else None
+        _trim_global_caches()
+        session, fresh = SmtLibParser(Environment()), SmtLibParser(Environment())
+        rep = {"declarations": decl_text, "failing": bad_text, "probes": probes, "shape": shape, "stream": "command-sequence",
+               "text": decl_text + bad_text + "\n" + "\n".join(probes), "tags": [shape], "may_reject": []}
+        sd, fd = _feed(session, decl_text), _feed(fresh, decl_text)
+        ctx.case("sequence:" + rep["text"])
+        ctx.count("sequence_" + shape.split("/")[1])
+        if sd[0] != "ok" or fd[0] != "ok":
+            ctx.report_s({"oracle": "accept", "kind": "generated", "error": (sd if sd[0] == "err" else fd)[1],
+                          "stream": "command-sequence"}, "declarations rejected: %s" % (sd[1:] if sd[0] == "err" else fd[1:],), rep)
+            continue
+        fb = _feed(session, bad_text)
+        if fb[0] == "ok":
+            ctx.report_s({"oracle": "reject", "kind": "sequence-failing-command", "detail": shape.split("/")[2]},
+                         "malformed command accepted: %s" % bad_text, rep)
+            continue
+        sig0 = {"stream": "command-sequence", "after": shape.split("/")[0], "shape": shape.split("/")[1]}
+        got_cmds, ok = list(sd[1]), True
+        for ptext in probes:
+            a, b = _feed(session, ptext), _feed(fresh, ptext)
+            if b[0] == "err":
+                ctx.count("sequence_probe_rejected_by_fresh_parser")
+                ok = False
+                break
+            if a[0] == "err":
+                ctx.report_s(dict(sig0, oracle="accept", kind="after-failed-command", error=a[1]),
+                             "one parser object: after the rejected command %s the valid command %s is rejected (%s %s); a fresh "
+                             "parser reading the declarations accepts it" % (bad_text, ptext, a[1], a[2]), dict(rep, probe=ptext))
+                ok = False
+                break
+            got_cmds += a[1]
+        if ghost_probe:
+            a, b = _feed(session, ghost_probe), _feed(fresh, ghost_probe)
+            if a[0] == "ok" and b[0] == "err":
+                ctx.report_s(dict(sig0, oracle="reject", kind="after-failed-command"),
+                             "one parser object: after the rejected command %s the command %s (undeclared name) is accepted as %s"
+                             % (bad_text, ghost_probe, semantic.readable(a[1][0].args[0])), dict(rep, probe=ghost_probe))
+        if not ok:
+            continue
+        ctx.count("sequence_compared")
+        try:
+            pairs = expected_terms(g, _Cmds(got_cmds))
+        except ValueError as e:
+            ctx.report_s(dict(sig0, oracle="commands", kind="structure"),
+                         "one parser object: the commands read after a rejected command differ from the text: %s" % e,
+                         dict(rep, error=str(e)))
+            continue
+        for what, want, got in pairs:
+            try:
+                interps = ig.sample([want, got], n=6)
+                line = semantic.chk_equiv_line(want, got, interps, check_fv=True)
+            except wire.OutOfFragment:
+                continue
+            lines.append(line)
+            meta.append((dict(sig0, oracle="meaning", command=what.split("#")[0]),
+                         dict(rep, command=what, intended=semantic.readable(want), returned=semantic.readable(got))))
+
+
+def symtok_plain(name):
+    return name if _is_simple(name) and name not in ("Int", "Real", "Bool") else "|" + name + "|"
+
+
+def _coerce(g, term, t, scope):
+    """(sexp, den, type) -> (sexp, den) of type t"""
+    sx, d, ty = term
+    if ty == t:
+        return sx, d
+    if ty == B:
+        return g.ap("ite", (sx, d), g.gen(t, 1, scope), g.gen(t, 1, scope))
+    if t == B:
+        return g.ap("<" if is_num(ty) else "eq", (sx, d), g.gen(ty, 1, scope))
+    cond = g.ap("<" if is_num(ty) else "eq", (sx, d), g.gen(ty, 1, scope))
+    return g.ap("ite", cond, g.gen(t, 1, scope), g.gen(t, 1, scope))
+
+
 KNOWN_SHAPES = [
     # (id, text, what must happen)   -- deliberate witnesses of the known findings, reported with their signature
     ("F16", "(declare-fun x () Int)(assert (= x -3))", "tolerant-numeral", "-3"),
@@ -2739,6 +3025,8 @@ def run(ctx):
     mark("nary")
     run_undeclared(ctx, (80 if short else 220) if quick else 2500, forced=short)
     mark("undeclared")
+    run_command_sequences(ctx, ig, lines, meta, (80 if short else 250) if quick else 2500, forced=short)
+    mark("command-sequences")
     n = 700 if quick else 6000
     for i in range(n):
         if ctx.time_left() < (75 if quick else 700):
@@ -2878,6 +3166,23 @@ def replay(ctx, rep):
         print("corpus file", r["file"], "->", res[0], res[1:] if res[0] == "err" else "")
         if (res[0] == "err") != (r["file"] in CORPUS_REJECTED):
             ctx.report_s(sig, rep["what"], r)
+        return
+    if r.get("stream") == "command-sequence" and "declarations" in r:
+        # one parser object: declarations, the rejected command, the probes; against a fresh parser without the rejected command
+        session, fresh = SmtLibParser(Environment()), SmtLibParser(Environment())
+        print("declarations:", r["declarations"], "\nrejected command:", r["failing"])
+        _feed(session, r["declarations"]), _feed(fresh, r["declarations"])
+        print("  ->", _feed(session, r["failing"])[:2])
+        for ptext in r["probes"] + ([r["probe"]] if r.get("probe") and r["probe"] not in r["probes"] else []):
+            a, b = _feed(session, ptext), _feed(fresh, ptext)
+            sa = [semantic.readable(x) if hasattr(x, "serialize") else x for x in a[1][0].args] if a[0] == "ok" and a[1] else a[1:]
+            sb = [semantic.readable(x) if hasattr(x, "serialize") else x for x in b[1][0].args] if b[0] == "ok" and b[1] else b[1:]
+            print("probe:", ptext, "\n  same parser :", sa, "\n  fresh parser:", sb)
+            import re
+            norm = lambda x: re.sub(r"(__[^\s()]*?)\d+", r"\1#", str(x))      # fresh names of definition parameters
+            if a[0] != b[0] or norm(sa) != norm(sb):
+                ctx.report_s(sig, rep["what"], r)
+                return
         return
     if "text" not in r:
         print("nothing to replay:", rep.get("what"))
